@@ -14,7 +14,7 @@ from ._life import lifecycle_part
 
 PROP = "C05"
 TAGS = {"C05"}
-QUICK = [("EOF", True, False, True), ("CPCCA", True, False, True), ("multiCCA", True, False, True)]
+QUICK = [("EOF", True, False, True), ("CPCCA", True, False, True), ("multiCCA", True, False, True), ("EOF2s", True, False, True)]
 THOROUGH = QUICK + [("MCA", True, False, True), ("POP", True, False, True), ("ComplexEOF", True, False, True), ("EOF", False, True, False)]
 DEVS = [("CapSingle", "TransformLabelsFromFit"), ("CapSingle", "QueryReadsTransformCoords")]
 
